@@ -289,8 +289,8 @@ def Lat.withTop (L : Lat β) : Lat (Option β) where
     | some _, none => false
     | some si, some oi => L.beq si oi
   isBot s := match s with | none => false | some i => L.isBot i
-  -- `self.0.as_ref().is_none_or(IsTop::is_top)`
-  isTop s := match s with | none => true | some i => L.isTop i
+  -- `self.0.is_none()`  (after the F1 fix; before it: `is_none_or(IsTop::is_top)`)
+  isTop s := s.isNone
   dflt := L.dflt.map some
   lfrom o := o.map L.lfrom
   atoms s := match s with | none => [none] | some i => (L.atoms i).map some
